@@ -19,10 +19,14 @@ def gen_cases(tier, seed):
     return workload.pipeline_grid(tier, seed)
 
 
-def herd_meat_milk(obj, inp, N):
+def herd_meat_milk(obj, inp, N, opts=None):
     dist = inp["WASTE_DISTRIBUTION"]["MEAT"] / 100.0
     kg = dict(KG)
-    if "kg_meat_per_large_animal" in inp:
+    # the large-animal weight override is taken from the options the harness submitted (not from the constants the model
+    # carries from round to round, which a defect could consume or overwrite on the way)
+    if opts is not None and "kg_meat_per_large_animal" in opts:
+        kg["large"] = float(opts["kg_meat_per_large_animal"])
+    elif opts is None and "kg_meat_per_large_animal" in inp:
         kg["large"] = float(inp["kg_meat_per_large_animal"])
     meat = np.zeros(N)
     milkpop = np.zeros(N)
@@ -84,10 +88,10 @@ def monitor(tr, case):
         snap, obj = tr.herds[hi]
         c, t, N = lp.consts, lp.time_consts, lp.N
         inp = c["inputs"]
-        meat, milk, nspecies = herd_meat_milk(obj, inp, N)
+        meat, milk, nspecies = herd_meat_milk(obj, inp, N, case["opts"])
         em = np.asarray(t["each_month_meat_slaughtered"].kcals, float)
         mk = np.asarray(t["milk_kcals"], float)
-        rd = {"round": li + 1, "kind": lp.kind, "mode": mode, "species": nspecies, "meat_total": float(meat.sum()), "milk_total": float(milk.sum()),
+        rd = {"round": li + 1, "kind": lp.kind, "mode": mode, "species": nspecies, "large_animal_override": case["opts"].get("kg_meat_per_large_animal"), "meat_total": float(meat.sum()), "milk_total": float(milk.sum()),
               "feed_charged": float(np.sum(t["feed"].kcals)), "feed_eaten": float(np.sum(obj.feed_used.kcals))}
         sc = max(1e-9, float(np.abs(meat).max()))
         if len(em) != N or len(mk) != N:
@@ -152,6 +156,7 @@ def summarize(cases, records, tier):
         min_audited=max(10, len(cases) // 3))
     cov["runs_by_shape"] = dict(collections.Counter(r["obs"].get("shape") for r in ok))
     cov["rounds_with_feed_charged_and_eaten"] = sum(1 for r in audited for x in r["obs"]["rounds"] if x["feed_charged"] > 0 and x["feed_eaten"] > 0)
+    cov["runs_with_large_animal_weight_override"] = sum(1 for r in audited if any(x.get("large_animal_override") is not None for x in r["obs"]["rounds"]))
     cov["retimed_rounds_checked_in_total"] = sum(1 for r in audited for x in r["obs"]["rounds"] if x["mode"] == "total")
     if cov["rounds_with_feed_charged_and_eaten"] == 0 and "inconclusive_reason" not in cov:
         cov["inconclusive_reason"] = "no round with feed both charged and eaten"
